@@ -4,6 +4,7 @@
 import FianoModel.Uefi.FileLemmas
 
 namespace Fiano.Uefi
+open EditArith
 open Fiano
 
 def roundUp (x a : Nat) : Nat := (x + a - 1) / a * a
@@ -33,6 +34,7 @@ theorem placeAt_spec (al hl a : Nat) (ha : a ∈ bigAligns) (hhl : hl = 24 ∨ h
 end Fiano.Uefi
 
 namespace Fiano.Uefi
+open EditArith
 open Fiano
 
 set_option maxRecDepth 16384 in
@@ -111,6 +113,7 @@ theorem fileStart_spec (off attrs : Nat) (ha : attrs < 256) :
 end Fiano.Uefi
 
 namespace Fiano.Uefi
+open EditArith
 open Fiano
 
 /-- the bytes of the pad file of `size` bytes -/
